@@ -8,7 +8,8 @@ list stable, spelling of names/extras irrelevant, quote style irrelevant, leadin
 `create_from_pep_508` for registry requirements.  The full statement is `dep_roundtrip_full_statement`; what is
 proved of it is `dep_roundtrip_partial` (the recogniser's result on the printed text is a hypothesis, as are the
 constraint and marker round trips owned by C15 and C13).  The statement is FALSE of the code without the side
-conditions named there: see the counterexample theorems (same witnesses as the check's corpus).
+conditions named there: see the counterexample theorem (same witness as the check's corpus); three former
+counterexamples, repaired in poetry-core since, are kept as regression theorems.
 -/
 import PoetryVerif.Proofs.Dep
 
@@ -97,8 +98,6 @@ example : ((parseGitUrl "git+ssh://git@github.com:org/repo.git@main").map GitUrl
 structure WFDep (d : Dep) : Prop where
   name : d.spec.name = canonName d.spec.prettyName
   extras : normFeatures d.spec.features = d.spec.features
-  /-- the name is not taken for a local archive (`foo.zip`, `x.tar.gz`, …: see `archive_suffix_counterexample`) -/
-  notArchive : isArchiveName d.spec.prettyName.toList = false
   notUrl : isUrlName d.spec.prettyName = false
 
 /-- `is_same_source_as` both ways -/
@@ -132,14 +131,13 @@ theorem dep_roundtrip_partial (d : Dep) (req : Requirement) (h : WFDep d) (hk : 
     (hm : req.marker = none) (s : String) (hs : req.constraint.toStr = .ok s) :
     ∃ d', fromReq req = .ok d' ∧ d'.name = d.name ∧ d'.extras = d.extras ∧ d'.kind = Kind.textual d.kind ∧
       sameSource d' d ∧ d'.constraint = req.constraint ∧ d'.marker = .any := by
-  have ha : isArchiveName req.name.toList = false := by rw [hname]; exact h.notArchive
   have hu : isUrlName req.name = false := by rw [hname]; exact h.notUrl
   refine ⟨{ spec := { prettyName := req.name, name := canonName req.name, sourceType := none, sourceUrl := none,
                       sourceReference := none, sourceResolvedReference := none, sourceSubdirectory := none,
                       features := normFeatures req.extras },
             constraint := req.constraint, prettyConstraint := s, marker := .any, pythonVersions := "*",
             pythonConstraint := VC.any, inExtras := [], optional := false, activated := true, kind := .registry }, ?_, ?_⟩
-  · simp only [fromReq, hu, hurl, hm, ha, mkRegistry, Spec.make, normalizeSourceUrl, truthy, mkDep, hs, bind, Except.bind,
+  · simp only [fromReq, hu, hurl, hm, mkRegistry, Spec.make, normalizeSourceUrl, truthy, mkDep, hs, bind, Except.bind,
       pure, Except.pure, Bool.false_and, Bool.false_eq_true, if_false]
   · refine ⟨?_, ?_, ?_, ?_, rfl, rfl⟩
     · show canonName req.name = d.spec.name
@@ -150,7 +148,7 @@ theorem dep_roundtrip_partial (d : Dep) (req : Requirement) (h : WFDep d) (hk : 
     · constructor <;> simp [Spec.isSameSourceAs, hsrc, truthy]
 
 example : ∃ d, mkRegistry "Foo_Bar" VC.any ["a-b"] = .ok d ∧ WFDep d ∧ d.kind = .registry ∧ d.spec.sourceType = none :=
-  ⟨_, rfl, ⟨by decide, by decide, by decide, by decide⟩, rfl, rfl⟩
+  ⟨_, rfl, ⟨by decide, by decide, by decide⟩, rfl, rfl⟩
 
 /-! ## where the code itself breaks the round trip -/
 
@@ -160,15 +158,25 @@ theorem wheel_url_name_counterexample :
     (createFromPep508 "X1 @ https://example.com/foo-1.0-py3-none-any.whl").map (fun d => (d.name, d.kind.tag)) =
       .ok ("foo", "url") := by rfl
 
-/-- **a registry name ending like an archive is taken for a local file**: the text `to_pep_508` prints for
-`Dependency("foo.zip", ">=1.0")` makes `create_from_pep_508` raise `AttributeError` (`url_to_path(None)`) -/
-theorem archive_suffix_counterexample :
+/-- **regression (poetry-core f169cc2): a registry name ending like an archive stays a registry dependency** — the
+text `to_pep_508` prints for `Dependency("foo.zip", ">=1.0")` parses back to the same name and kind (it used to raise
+`AttributeError`: the name was taken for a local file) -/
+theorem archive_suffix_name_roundtrip :
     (mkRegistryStr "foo.zip" ">=1.0" []).bind (fun d => d.toPep508) = .ok "foo.zip (>=1.0)" ∧
-    (createFromPep508 "foo.zip (>=1.0)").map (fun d => d.name) = .error .attribute := by
+    (createFromPep508 "foo.zip (>=1.0)").map (fun d => (d.name, d.kind.tag)) = .ok ("foo-zip", "registry") := by
   constructor <;> rfl
 
-/-- **a git `file:///` URL loses its (empty) host**: `ParsedUrl.url` formats the missing `resource` as `None` -/
-theorem git_file_url_counterexample :
-    (parseGitUrl "git+file:///srv/repo.git@v1").map GitUrl.url = .ok "file://None/srv/repo.git" := by rfl
+/-- **regression (poetry-core ee3a18f): a git `file:///` URL keeps its empty host** (it used to be printed as the text
+`None`), and the normal form is a fixed point of parse ∘ print -/
+theorem git_file_url_roundtrip :
+    (parseGitUrl "git+file:///srv/repo.git@v1").map GitUrl.url = .ok "file:///srv/repo.git" ∧
+    (parseGitUrl "file:///srv/repo.git").map GitUrl.url = .ok "file:///srv/repo.git" := by
+  constructor <;> rfl
+
+/-- **regression (poetry-core 99e1c95): a sub-directory containing a dot is read back as the sub-directory**, not as
+a revision -/
+theorem vcs_subdirectory_dot_roundtrip :
+    (parseGitUrl "git+https://github.com/org/repo.git#subdirectory=src/my.pkg").map (fun u => (u.rev, u.subdirectory)) =
+      .ok (none, some "src/my.pkg") := by rfl
 
 end Poetry.C10
